@@ -10,10 +10,13 @@ made_wt=""
 if [ -d "$src" ]; then wt=$(realpath "$src"); else
   wt=/tmp/oxwt.$tag
   git -C /repo worktree add -q --detach "$wt" HEAD || exit 2
-  git -C "$wt" apply "$(realpath "$src")" || { git -C /repo worktree remove --force "$wt"; exit 2; }
+  git -C "$wt" apply "$(realpath "$src")" 2>/dev/null || git -C "$wt" apply -3 "$(realpath "$src")" || { git -C /repo worktree remove --force "$wt"; exit 2; }
   made_wt=1
 fi
-mkdir -p $vt/target && cp -r /verif/check /verif/mc /verif/py /verif/known_findings.json $vt/ || exit 2
+# the harness as COMMITTED in /verif (uncommitted edits in progress never leak into a trial); SRC=worktree uses the working tree
+mkdir -p $vt/target || exit 2
+if [ "$SRC" = worktree ]; then cp -r /verif/check /verif/mc /verif/py /verif/known_findings.json $vt/ || exit 2
+else git -C /verif archive HEAD check mc py known_findings.json | tar -x -C $vt || exit 2; fi
 [ -d /verif/target/mc ] && cp -r /verif/target/mc $vt/target/mc
 for c in "$@"; do
   out=$(MC_REPO=$wt $vt/check $c ${TIER:-quick} 2>&1); code=$?
